@@ -37,8 +37,42 @@ import YtkProofs.HeapSet
 import YtkProofs.HeapPatchFold
 import YtkProofs.Decisions
 import YtkModel.Generated.Constants
+import YtkProofs.Decisions2
 
 namespace Ytk.C13
+
+/-! ## decision tables regenerated from the source (extract/tables2.go) -/
+section DecisionTables2
+open Ytk.TableT
+
+/-- (i) The os.OpenFile call of ExportOp.Do as regenerated from pipeline/export_op.go (flags, mode) is
+    the one the model assumes, and with these flags the exported file holds exactly what was written,
+    whether or not it existed and whatever it held — `exportOp` reports a file as "opened (created /
+    truncated)" and its content as what was handed to the encoder. -/
+theorem export_open_table_matches_model :
+    Generated.openCalls.find? (·.site == "pipeline.ExportOp.Do") =
+      K8s.openTable.find? (·.site == "pipeline.ExportOp.Do") ∧
+    (∀ (old : Option (List UInt8)) (new : List UInt8),
+      K8s.fileAfterOpenWrite (K8s.flagsOf Generated.openCalls "pipeline.ExportOp.Do") old new = some new) :=
+  ⟨by decide +kernel,
+   fun old new => K8s.fileAfterOpenWrite_trunc _ old new (by decide +kernel) (by decide +kernel) (by decide +kernel)⟩
+
+/-- (ii) the rule on the regenerated table: the export file is opened write-only, created when missing
+    and TRUNCATED when present (an export that is shorter than the file's old content leaves no stale
+    tail, so importing it back reads the exported subtree only), mode 0644 -/
+theorem export_open_table_rule :
+    K8s.flagsOf Generated.openCalls "pipeline.ExportOp.Do" = ["O_CREATE", "O_TRUNC", "O_WRONLY"] ∧
+    (Generated.openCalls.find? (·.site == "pipeline.ExportOp.Do")).map (·.mode) = some 0o644 := by
+  decide +kernel
+
+/-- (iii) the call is there, once; and without O_TRUNC the same write would leave a stale tail -/
+theorem nonvacuous_export_open_table :
+    (Generated.openCalls.filter (·.site == "pipeline.ExportOp.Do")).length = 1 ∧
+    K8s.fileAfterOpenWrite ["O_CREATE", "O_WRONLY"] (some [1, 2, 3]) [9] = some [9, 2, 3] := by
+  decide +kernel
+
+end DecisionTables2
+
 open Ytk.PD
 
 /-! ## decision tables regenerated from the source (extract/tables.go) -/
@@ -935,7 +969,6 @@ theorem nonvacuous_ref :
 
 theorem nonvacuous_lenient : possiblyTemplate "x {{ .a }}" = true ∧ possiblyTemplate "{{ open" = false ∧
     possiblyTemplate "}} {{" = false ∧ indexOf2 '{' '{' "a { b } c".toList = none := by decide
-
 
 /-! ## Pointer level: pipeline.PatchOp on the heap model (YtkModel/HeapPatch.lean)
 
